@@ -13,7 +13,7 @@ RULE = ("identifications over the Annex 10 six-bit alphabet (A-Z=1..26, space=32
         "with the other 7 random legal (exhaustive 8x37) plus Hypothesis-drawn strings; TC 1-4 x category 0-7 x DF17/18 (callsign, category) and "
         "BDS 2,0 in DF20/21 with random header/address (cs20); oracle: output == input with ' ' -> '_', category == field; independence: "
         "changing one character changes exactly that output position. non-trivial = string with >= 4 distinct symbols or a space/digit"
-        ' Also: the keyword form callsign(msg=...), 98 real identification frames (leg corpus), four concurrent callers decoding different identifications (leg threads), 300 000 / 2.4 million distinct frames in a row in one process (leg volume), the first calls of a freshly imported package made by four threads at once (leg first_use).')
+        ' Also: the keyword form callsign(msg=...), 98 real identification frames (leg corpus), four concurrent callers decoding different identifications (leg threads), 300 000 / 2.4 million distinct frames in a row in one process (leg volume), the first calls of a freshly imported package made by four threads at once (leg first_use), BDS 2,0 replies whose AP digits repeat digits inside MB, look-alike DF16/DF19 frames and other message types of the same aircraft decoded first, the decoders first handed damaged forms of the frame.')
 ASSUMPTIONS = ["character codes per Annex 10 Vol IV table 3-9 (ref table below, written from the standard)"]
 
 ALPHA = "ABCDEFGHIJKLMNOPQRSTUVWXYZ 0123456789"
